@@ -13,8 +13,8 @@
                        followed by one; the output is non-empty and ends with a word
                        character;
      collides k k'     the regex pattern of k also matches inside the message of k'
-                       (same task, k's point is a \b-suffix of k' 's point, k's output a
-                       \b-prefix of k' 's output);
+                       (same task, k's point is a \b-suffix of k' 's point not preceded by a
+                       minus sign, k's output a \b-prefix of k' 's output);
      order_ok ks       no key collides into a key inserted after it;
      good ks o         ks = the prerequisite's keys in insertion order: pairwise distinct,
                        wf, order_ok, and exactly the atoms of o;
@@ -95,7 +95,9 @@ Qed.
 
 (* 5. When do the hypotheses hold?  (a) keys over the legal alphabets are wf;
    (b) keys of different tasks never collide — whatever the names; (c) between
-   integer points the point part of a collision is "equal or the negation";
+   integer points a collision needs equal points (since fix 0083ac1; before it the
+   negated point was a second case, finding c13:neg-point-collision), so with
+   integer points only outputs that are \b-prefixes of one another can collide;
    (d) if no two keys collide at all, every insertion order is fine. *)
 Theorem c13_legal_alphabets_wf : forall k,
   forallb point_char (kP k) = true -> point_start_ok (kP k) = true ->
@@ -110,9 +112,9 @@ Proof.
   exfalso. apply H. apply collides_same_name. exact E.
 Qed.
 
-Theorem c13_integer_points_collide_only_by_negation : forall k k',
+Theorem c13_integer_points_collide_only_if_equal : forall k k',
   int_point (kP k) = true -> int_point (kP k') = true -> collides k k' = true ->
-  kN k = kN k' /\ (kP k' = kP k \/ kP k' = 45 :: kP k).
+  kN k = kN k' /\ kP k' = kP k.
 Proof.
   intros k k' Hp Hp' Hc. split; [apply collides_same_name; exact Hc|].
   unfold collides in Hc. rewrite !andb_true_iff in Hc. destruct Hc as [[_ Hs] _].
@@ -126,7 +128,7 @@ Proof. exact order_ok_pairwise. Qed.
 
 (* ------------------------------------------------------------------------- *)
 (* 6. The unrestricted statement (distinct legal keys, no hypothesis on the
-   insertion order) is FALSE of the code: finding c13:neg-point-collision. *)
+   insertion order) is still FALSE of the code: finding c13:output-prefix-collision. *)
 Definition c13_eval_equals_expr_unrestricted : Prop :=
   forall o l,
     Forall wf (map fst l) -> NoDup (map fst l) ->
@@ -135,12 +137,12 @@ Definition c13_eval_equals_expr_unrestricted : Prop :=
     = RVal (VBool (sem_o (sigma l) o)).
 
 Local Open Scope string_scope.
-Definition k_pos : key := (codes "1", codes "b", codes "succeeded").
-Definition k_neg : key := (codes "-1", codes "b", codes "succeeded").
-(* graph  P1 = "b[-P2] | b => c", initial cycle point 1, task 1/c *)
-Definition w_expr : oexp := OOr (AP (PAtm k_neg)) (OA (AP (PAtm k_pos))).
-(* 1/b inserted first; -1/b is pre-initial, hence satisfied *)
-Definition w_sat : list (key * sstate) := [(k_pos, Unsat); (k_neg, SNat)].
+(* graph  P1 = "a:x | a:y => c"  with outputs  x = "data", y = "data ready"  of task a *)
+Definition k_short : key := (codes "1", codes "a", codes "data").
+Definition k_long : key := (codes "1", codes "a", codes "data ready").
+Definition w_expr : oexp := OOr (AP (PAtm k_short)) (OA (AP (PAtm k_long))).
+(* the shorter message inserted first; the longer output has been received *)
+Definition w_sat : list (key * sstate) := [(k_short, Unsat); (k_long, SNat)].
 
 Lemma w_wf : Forall wf (map fst w_sat).
 Proof. repeat constructor; apply wf_key_wf; vm_compute; reflexivity. Qed.
@@ -148,7 +150,7 @@ Proof. repeat constructor; apply wf_key_wf; vm_compute; reflexivity. Qed.
 Lemma w_nodup : NoDup (map fst w_sat).
 Proof.
   repeat constructor; cbn; [|tauto]. intros [H|[]].
-  assert (E : key_eqb k_neg k_pos = true) by (apply key_eqb_eq; exact H). vm_compute in E. discriminate.
+  assert (E : key_eqb k_long k_short = true) by (apply key_eqb_eq; exact H). vm_compute in E. discriminate.
 Qed.
 
 Lemma w_atoms : forall k, In k (atoms_o w_expr) <-> In k (map fst w_sat).
@@ -160,28 +162,56 @@ Proof.
   vm_compute in H. discriminate.
 Qed.
 
-(* what the code does on the witness: the text is corrupted to
-   -bool(S["1","b",..])|bool(S["1","b",..]) and evaluates to the integer 0,
-   although the expression is true (its pre-initial operand is satisfied) *)
+(* what the code does on the witness: the pattern of "1/a data" also matches inside
+   "1/a data ready"; the text becomes  bool(S[..."data"])|bool(S[..."data"]) ready,
+   which is not an expression (TriggerExpressionError in Python, RUnm in the model),
+   although the expression is true *)
 Example c13_witness_value :
   fst (is_satisfied (set_conditional_expr {| sat := w_sat; cexpr := None; cached := None |} (expr_text w_expr)))
-  = RVal (VInt 0) /\ sem_o (sigma w_sat) w_expr = true.
+  = RUnm /\ sem_o (sigma w_sat) w_expr = true.
 Proof. split; vm_compute; reflexivity. Qed.
 
 (* the witness violates exactly the order hypothesis; in the other insertion
    order the hypotheses hold (so theorem 2 applies and the answer is right) *)
-Example c13_witness_collides : collides k_pos k_neg = true /\ collides k_neg k_pos = false.
+Example c13_witness_collides : collides k_short k_long = true /\ collides k_long k_short = false.
 Proof. split; vm_compute; reflexivity. Qed.
 
-Example c13_witness_other_order_good : good [k_neg; k_pos] w_expr.
+Example c13_witness_other_order_good : good [k_long; k_short] w_expr.
 Proof.
   constructor.
   - repeat constructor; apply wf_key_wf; vm_compute; reflexivity.
   - repeat constructor.
   - repeat constructor; cbn; [|tauto]. intros [H|[]].
-    assert (E : key_eqb k_pos k_neg = true) by (apply key_eqb_eq; exact H). vm_compute in E. discriminate.
+    assert (E : key_eqb k_short k_long = true) by (apply key_eqb_eq; exact H). vm_compute in E. discriminate.
   - intros k. cbn. tauto.
 Qed.
+
+(* Regression of the fixed finding c13:neg-point-collision (fix 0083ac1, look-behind):
+   graph  P1 = "b[-P2] | b => c", initial cycle point 1, task 1/c, with 1/b inserted
+   first.  The keys no longer collide, both insertion orders are good, and the
+   pre-initial dependency makes 1/c satisfied. *)
+Definition k_pos : key := (codes "1", codes "b", codes "succeeded").
+Definition k_neg : key := (codes "-1", codes "b", codes "succeeded").
+Definition n_expr : oexp := OOr (AP (PAtm k_neg)) (OA (AP (PAtm k_pos))).
+
+Example c13_negpoint_no_collision : collides k_pos k_neg = false /\ collides k_neg k_pos = false.
+Proof. split; vm_compute; reflexivity. Qed.
+
+Example c13_negpoint_good : good [k_pos; k_neg] n_expr.
+Proof.
+  constructor.
+  - repeat constructor; apply wf_key_wf; vm_compute; reflexivity.
+  - unfold order_ok. repeat constructor; vm_compute; reflexivity.
+  - repeat constructor; cbn; [|tauto]. intros [H|[]].
+    assert (E : key_eqb k_neg k_pos = true) by (apply key_eqb_eq; exact H). vm_compute in E. discriminate.
+  - intros k. cbn. tauto.
+Qed.
+
+Example c13_negpoint_value :
+  fst (is_satisfied (set_conditional_expr {| sat := [(k_pos, Unsat); (k_neg, SNat)]; cexpr := None; cached := None |}
+                                          (expr_text n_expr)))
+  = RVal (VBool true).
+Proof. vm_compute. reflexivity. Qed.
 
 (* ------------------------------------------------------------------------- *)
 (* non-vacuity: a five-atom expression over names that are prefixes, suffixes
